@@ -381,6 +381,11 @@ func classifyUseX(c *core.Ctx, inf *types.Info, par map[ast.Node]ast.Node, id *a
 					top = se
 					continue
 				}
+				// (&arr)[i]: indexing through a pointer to an array dereferences it implicitly
+				if ix, ok := q.(*ast.IndexExpr); ok && core.Unparen(ix.X) == ast.Expr(x) {
+					top = ix
+					continue
+				}
 			}
 		}
 		break
